@@ -181,7 +181,17 @@ def _run_part(prop, part, tier, runs, budget, workers, quiet, seed):
       lines.append("HARNESS-ERROR: violation of %s did not reproduce from %s" % (prop, path))
   if unreproduced and rc == 0:
     rc = 2
-  coverage = eng.coverage(agg, mode, tier)
+  try:
+    coverage = eng.coverage(agg, mode, tier)
+  except kernel.HarnessError:
+    if rc != 1:
+      raise
+    # the verdict is already decided by a reproduced violation; the
+    # cross-validation that runs inside coverage() met a tree too broken to
+    # validate against - report the violation, with minimal coverage
+    coverage = {"evaluations": agg.get("runs", 0), "distinct_nontrivial": 0,
+                "rule": "coverage unavailable: model cross-validation failed on a "
+                        "tree that already violates the property", "samples": []}
   coverage["runs_per_hour"] = int(agg["runs"] / max(wall, 1e-6) * 3600)
   coverage["seeds"] = {"verif_seed": seed, "run_indices": [0, agg["runs"]],
                        "derivation": "run_seed = sha256('<VERIF_SEED>/<engine>/<index>')[:8]"}
@@ -319,4 +329,13 @@ def main(argv):
     return a.fn(a)
   except kernel.HarnessError as e:
     print("HARNESS-ERROR: %s" % e)
+    return 2
+  except SystemExit:
+    raise
+  except BaseException as e:  # pylint: disable=broad-except
+    # an uncaught exception of the machinery must never look like a verdict
+    # (exit 1 is reserved for VIOLATION)
+    import traceback
+    traceback.print_exc()
+    print("HARNESS-ERROR: uncaught %s: %s" % (type(e).__name__, e))
     return 2
